@@ -272,6 +272,12 @@ class _Fold(ast.NodeTransformer):
                 ps = run_paths(body, env=penv, fold=self.fold, inline=self.inline, depth=self.depth - 1)
                 if len(ps) == 1 and ps[0].how == "return" and not ps[0].effects and ps[0].ret is not None and not ps[0].conds_open():
                     return ps[0].ret
+                # two pure paths that differ in the polarity of one test: `A if test else B`
+                if len(ps) == 2 and all(q.how == "return" and not q.effects and q.ret is not None for q in ps):
+                    c0, c1 = ps[0].conds_open(), ps[1].conds_open()
+                    if len(c0) == 1 and len(c1) == 1 and unparse(c0[0][0]) == unparse(c1[0][0]) and c0[0][1] != c1[0][1]:
+                        yes, no = (ps[0], ps[1]) if c0[0][1] else (ps[1], ps[0])
+                        return ast.IfExp(test=c0[0][0], body=yes.ret, orelse=no.ret)
         return node
 
 
@@ -323,6 +329,23 @@ def run_paths(stmts, env=None, max_paths=256, decide=None, inline=None, fold=Non
         if folder is None or e is None:
             return e
         return folder.visit(copy.deepcopy(e))
+
+    class _Decided(ast.NodeTransformer):
+        """conditional expressions whose test the path has already decided"""
+        def __init__(self, conds):
+            self.conds = conds
+
+        def visit_IfExp(self, node):
+            node = self.generic_visit(node)
+            v = _entailed(node.test, self.conds) if isinstance(node, ast.IfExp) else None
+            if v is None:
+                return node
+            return node.body if v else node.orelse
+
+    def D(e, conds):
+        if e is None or not conds or not any(isinstance(n, ast.IfExp) for n in ast.walk(e)):
+            return e
+        return _Decided(conds).visit(copy.deepcopy(e))
 
     def callee_of(call):
         if not inline or depth <= 0 or not isinstance(call, ast.Call):
@@ -396,7 +419,7 @@ def run_paths(stmts, env=None, max_paths=256, decide=None, inline=None, fold=Non
                 i = 0
                 continue
             if isinstance(s, ast.Assign):
-                val = F(subst(s.value, env))
+                val = D(F(subst(s.value, env)), conds)
                 for t in s.targets:
                     if isinstance(t, ast.Name):
                         env = dict(env)
@@ -422,6 +445,15 @@ def run_paths(stmts, env=None, max_paths=256, decide=None, inline=None, fold=Non
                             vals.append(val)
                         env = dict(env)
                         env[t.value.id] = ast.Dict(keys=keys, values=vals)
+                    elif isinstance(t, (ast.Tuple, ast.List)) and isinstance(val, (ast.Tuple, ast.List)) and \
+                            len(val.elts) == len(t.elts) and not any(isinstance(e, ast.Starred) for e in list(t.elts) + list(val.elts)):
+                        # a, obj.x = E1, E2 with mixed targets: all values are taken first, then stored left to right
+                        for e, v in zip(t.elts, val.elts):
+                            if isinstance(e, ast.Name):
+                                env = dict(env)
+                                env[e.id] = v
+                            else:
+                                effects = effects + [ast.Assign(targets=[subst(e, env)], value=v, lineno=s.lineno)]
                     else:
                         effects = effects + [ast.Assign(targets=[subst(t, env)], value=val, lineno=s.lineno)]
                 continue
@@ -453,10 +485,10 @@ def run_paths(stmts, env=None, max_paths=256, decide=None, inline=None, fold=Non
                     env = dict(env)
                     env[v.func.value.id] = ast.Dict(keys=keys, values=vals)
                     continue
-                effects = effects + [F(subst(s.value, env))]
+                effects = effects + [D(F(subst(s.value, env)), conds)]
                 continue
             if isinstance(s, ast.Return):
-                results.append(Path(conds, env, F(subst(s.value, env)) if s.value is not None else None, "return",
+                results.append(Path(conds, env, D(F(subst(s.value, env)), conds) if s.value is not None else None, "return",
                                     effects, s.lineno))
                 return
             if isinstance(s, ast.Raise):
@@ -514,15 +546,28 @@ def run_paths(stmts, env=None, max_paths=256, decide=None, inline=None, fold=Non
                 return
             if isinstance(s, (ast.For, ast.AsyncFor, ast.While)):
                 env = dict(env)
+                k_loop = sum(1 for e in effects if isinstance(e, (ast.For, ast.AsyncFor, ast.While)))
                 for n in assigned_names([s]):
-                    env[n] = ast.Name(id=f"{n}__loop{s.lineno}", ctx=ast.Load())
+                    env[n] = ast.Name(id=f"{n}__loop{k_loop}", ctx=ast.Load())
                 effects = effects + [s]
                 continue
             if isinstance(s, ast.Try):
                 rest = stmts[i:]
+                eff0 = effects
                 if s.handlers:
                     effects = effects + [ast.Expr(value=ast.Name(id="__try_except__", ctx=ast.Load()))]
-                go(list(s.body) + list(s.orelse) + list(s.finalbody) + rest, 0, env, conds, effects)
+                fin = list(s.finalbody)
+                if fin:
+                    # what runs in `finally` runs on the exceptional exits too: keep the block delimited in the summary
+                    fin = [ast.Expr(value=ast.Name(id="__finally__", ctx=ast.Load()), lineno=s.lineno)] + fin + \
+                          [ast.Expr(value=ast.Name(id="__end_finally__", ctx=ast.Load()), lineno=s.lineno)]
+                go(list(s.body) + list(s.orelse) + fin + rest, 0, env, conds, effects)
+                # each handler as an alternative path: the protected block raised (its partial effects are not modelled),
+                # recorded as the open condition `__raised__(<exception>)`
+                for h in s.handlers:
+                    exc = unparse(h.type) if h.type is not None else "BaseException"
+                    mark = ast.Call(func=ast.Name(id="__raised__", ctx=ast.Load()), args=[ast.Name(id=exc.replace(" ", ""), ctx=ast.Load())], keywords=[])
+                    go(list(h.body) + fin + rest, 0, env, conds + [(mark, True)], eff0)
                 return
             effects = effects + [s]
         results.append(Path(conds, env, None, "fall", effects, stmts[-1].lineno if stmts else 0))
